@@ -503,6 +503,10 @@ class NPModel(NSModel):
             return I.obj_array(a)
         if isinstance(dtype, DType) and dtype.kind in "iu" or dtype is I.TYPE_INT:
             if a.dtype == object:
+                from .intarith import _is_int
+                flat = [x for x in a.reshape(-1)]
+                if any(isinstance(x, T) and x.op != "c" for x in flat) and all(isinstance(x, (int, np.integer)) or (isinstance(x, Q) and x.denominator == 1) or (isinstance(x, T) and _is_int(x)) for x in flat):
+                    return a.copy()       # an integer array with symbolic (integer-sorted) entries stays symbolic
                 return self._concrete(a).astype(np.int32 if dtype is DT_I4 else np.int64)
             return a.astype(np.int32 if dtype is DT_I4 else np.int64)
         if dtype is DT_BOOL or dtype is I.TYPE_BOOL:
